@@ -11,7 +11,7 @@ META = {
     "property_id": PID,
     "level": "model_checking",
     "technique": "TLA+ spec FullText.tla (three-state tokenizer over character classes, minimum word length, collation folding, Match = shared word); tokenizer facts model-checked exhaustively by TLC; TLC-built tables/queries with expected row ids executed on the engine (binding A); seeded DML histories on a FULLTEXT table with an index-free twin validated by TLC after every step (binding B)",
-    "text": "The index has no abstract state: after every statement of a history (INSERT, multi-row INSERT, failing INSERT, INSERT IGNORE, UPDATE of either indexed column / of many rows / of the primary key, DELETE, REPLACE, ON DUPLICATE KEY UPDATE, TRUNCATE, DROP + ADD of the index; single-column FULLTEXT(a) and FULLTEXT(a, b); utf8mb4_0900_ai_ci and utf8mb4_bin) the ids returned by WHERE MATCH(..) AGAINST(q) (index-driven plan) and by WHERE MATCH(..) AGAINST(q) > 0 (row-by-row evaluation) must be exactly, and once each, the ids of the current rows whose document shares a word with q under the specification's tokenizer and collation; the FULLTEXT table must hold the same rows as its twin. TLC also enumerates every string of <= 6 characters over {a, b, ', space, _, 1, A} and checks the tokenizer facts (well-formed words, idempotence, apostrophe rules).",
+    "text": "The index has no abstract state: after every statement of a history (INSERT, multi-row INSERT, INSERT under a previously deleted key, failing INSERT, INSERT IGNORE, UPDATE of either indexed column / of many rows / of the primary key, DELETE, REPLACE, ON DUPLICATE KEY UPDATE, TRUNCATE, DROP + ADD of the index; single-column FULLTEXT(a) and FULLTEXT(a, b); utf8mb4_0900_ai_ci and utf8mb4_bin) the ids returned by WHERE MATCH(..) AGAINST(q) (index-driven plan) and by WHERE MATCH(..) AGAINST(q) > 0 (row-by-row evaluation) must be exactly, and once each, the ids of the current rows whose document shares a word with q under the specification's tokenizer (words of 3..84 characters; the vocabulary contains words of 2, 3, 4, 83, 84 and 85 characters) and collation; the FULLTEXT table must hold the same rows as its twin. TLC also enumerates every string of <= 6 characters over {a, b, ', space, _, 1, A} and checks the tokenizer facts (well-formed words, idempotence, apostrophe rules).",
     "note": "ASCII documents only (byte length = character count); nothing generated is on MySQL's stopword list (the engine has no stopwords); relevance values and their order are not compared; boolean mode and query expansion are outside the property; trusted: TLC, the SQL rendering and integer-list comparison in harness/cmd/c51.",
     "design_ref": "§7 C51",
 }
@@ -224,7 +224,7 @@ def check(tier):
         if r.distinct < 100000:
             raise lib.Inconclusive("tokenizer enumeration too small: %d" % r.distinct)
         ops = repb["extra"]["ops"]
-        need = ["insert", "update-a", "update-b", "delete", "replace-new", "truncate", "drop-index", "add-index", "update-id", "insert-dup"]
+        need = ["insert", "insert-reuse", "update-a", "update-b", "delete", "replace-new", "replace-hit", "upsert-hit", "truncate", "drop-index", "add-index", "update-id", "insert-dup"]
         if tier == "thorough":
             missing = [o for o in need if not ops.get(o)]
             if missing:
@@ -236,9 +236,9 @@ def check(tier):
             "states": r.distinct, "transitions": r.generated,
             "traces_validated_against_impl": repb["cases"] + repa["cases"],
             "samples": (repa["samples"][:2] + repb["samples"][:1]) or ["none"],
-            "evaluations": repa["extra"]["queries"] * 2 + repb["cases"] * 14,
+            "evaluations": repa["extra"]["queries"] * 2 + repb["cases"] * 16,
             "distinct_nontrivial": repa["nontrivial"] + repb["nontrivial"],
-            "rule": "model: every string of <= 6 characters over {a b ' space _ 1 A} satisfies TokenizerSane (exhaustive, %d states); binding A: %d TLC-built tables (2-5 documents of <= 3 vocabulary words x 8 separators, or raw strings; 1 or 2 indexed columns; ci/bin) x 4 queries x 2 query forms compared with TLC's MatchIds; binding B: %d seeded histories x %d statements, after each statement 7 query strings x 2 query forms validated by TLC against the current rows; non-trivial = a query selecting some but not all rows (counted per executed query)" % (r.distinct, repa["cases"], sz["nhist"], sz["steps"]),
+            "rule": "model: every string of <= 6 characters over {a b ' space _ 1 A} satisfies TokenizerSane (exhaustive, %d states); binding A: %d TLC-built tables (2-5 documents of <= 3 vocabulary words x 8 separators, or raw strings; 1 or 2 indexed columns; ci/bin) x 4 queries x 2 query forms compared with TLC's MatchIds; binding B: %d seeded histories x %d statements, after each statement 8 query strings (two of them made of the 83/84/85-character boundary words) x 2 query forms validated by TLC against the current rows; non-trivial = a query selecting some but not all rows (counted per executed query)" % (r.distinct, repa["cases"], sz["nhist"], sz["steps"]),
             "binding_a_cases": repa["cases"], "binding_a_queries": repa["extra"]["queries"], "binding_a_disagreements": len(repa["mismatches"]),
             "binding_a_plans": repa["extra"].get("plans"),
             "binding_b_steps": repb["cases"], "binding_b_ops": ops, "binding_b_steps_disagreeing": len(by), "binding_b_reported": nb,
